@@ -60,6 +60,19 @@ def check(run, P):
     from .c01 import _alias
     _alias(run, "C04.reset", "C11.reset",
            lambda: c04._reset(run, P, P.cls(c04.EC)))
+    # what counts as persistent (shared with C13.storage)
+    from . import c13
+    for r_ in ("C13.storage", "C01.persist"):
+        run.rule_docs.setdefault(r_, "")
+        run.minimum.setdefault(r_, 0)
+    n0_ = len(run.obs)
+    c13._storage(run, P)
+    for o_ in run.obs[n0_:]:
+        if o_.rule in ("C13.storage", "C01.persist"):
+            o_.rule = "C11.filter"
+    for r_ in ("C13.storage", "C01.persist"):
+        run.rule_docs.pop(r_, None)
+        run.minimum.pop(r_, None)
     _transparent(run, P)
     _atomic(run, P)
     _locals(run, P)
